@@ -14,7 +14,7 @@ fn wtag(w: &WEv) -> String { match w { WEv::Accept(k) => format!("a{k}"), WEv::P
 /// returns (trace with outgoing bytes coalesced per result, pending polls seen, futures dropped)
 pub fn run_async(rt: &tokio::runtime::Runtime, fr: &Frames, idx: &RepIndex, verify: bool, evs: &[REv], ws: &[WEv], cancels: &[bool]) -> (Vec<String>, usize, usize) {
     let r = guard(|| rt.block_on(async {
-        let t = Transport::new(evs.to_vec(), ws.to_vec());
+        let t = Transport::new(evs.to_vec(), ws.to_vec()); t.0.lock().unwrap().slow_flush = true;
         let mut f = AFramed::new(Box::new(t.clone()), Codec::new(mode_of(fr.compressed)));
         f.verify_version(verify);
         let mut trace = vec![]; let mut ci = 0usize; let mut dropped = 0usize;
